@@ -98,6 +98,8 @@ MonFile(specsq, refs, bare, parses) ==
   /\ \A r \in refs :
        (~ \E s \in specs : s.path = r.path /\ s.name \notin {"_", "."} /\ Provides(s, r.qual))
          => (Report("C03", r.path) /\ (IsStd(r.path) => Report("C18", r.path)))
+  /\ \A r \in refs : \A s \in specs :
+       (s.path # r.path /\ s.name \notin {"_", "."} /\ Provides(s, r.qual)) => Report("C03", "qualifier " \o r.qual \o " is also bound to " \o s.path)
   \* C04: exact import block
   /\ \A s \in specs :
        (~ (s.path \in used \/ s.path \in DOMAIN bound \/ s.name = "_" \/ (s.name = "." /\ s.path \in bare)
@@ -150,6 +152,9 @@ RenderEv ==
         /\ (E.c15f.on /\ ~E.c15f.docok) => Report("C15", "package comments are not exactly the package doc")
         /\ (E.c15f.on /\ ~E.c15f.headok) => Report("C15", "header comment lost or part of the package doc")
         /\ (E.c15f.on /\ ~E.c15f.canonok) => Report("C15", "canonical import path annotation")
+        /\ (E.c15r.on /\ ~E.c15r.docok) => Report("C15", "NoFormat: package comments are not exactly the package doc")
+        /\ (E.c15r.on /\ ~E.c15r.headok) => Report("C15", "NoFormat: header comment lost or part of the package doc")
+        /\ (E.c15r.on /\ ~E.c15r.canonok) => Report("C15", "NoFormat: canonical import path annotation")
         \* C02: a successful render is valid Go and exactly gofmt of the raw rendering; invalid compositions are errors
         /\ (E.status = "panic" \/ E.rawstatus = "panic") => Report("C02", "panic")
         /\ (E.status = "nil" /\ E.rawstatus = "nil" /\ ~E.fmteq) => Report("C02", "output is not gofmt of the raw rendering")
